@@ -381,3 +381,45 @@ def base_path(body, op_or_place, limit=16):
         fields = tuple(e["f"] for e in p2["p"] if isinstance(e, dict) and "f" in e) + fields
         l = p2["l"]
     return l, fields
+
+
+def all_places(body):
+    """Every place mentioned in the statements and terminators of a body: (bb, span, place)."""
+    def ops_of(rv):
+        k = rv["k"]
+        if k in ("use", "cast"):
+            yield rv.get("op")
+        elif k == "un":
+            yield rv.get("a")
+        elif k == "bin":
+            yield rv["a"]
+            yield rv["b"]
+        elif k == "agg":
+            for o in rv["ops"]:
+                yield o
+    for bi, j, s in body.stmts():
+        if s["k"] != "assign":
+            continue
+        yield bi, s["span"], s["lhs"]
+        rv = s["rv"]
+        if rv["k"] in ("ref", "rawptr", "discr", "len") and rv.get("place"):
+            yield bi, s["span"], rv["place"]
+        for o in ops_of(rv):
+            if isinstance(o, dict):
+                pl = o.get("c") or o.get("m")
+                if pl:
+                    yield bi, s["span"], pl
+    for bi, t in body.terms():
+        sp = t.get("span") or body.span
+        if t["k"] == "call":
+            for o in t["args"]:
+                pl = o.get("c") or o.get("m")
+                if pl:
+                    yield bi, sp, pl
+            yield bi, sp, t["dest"]
+        elif t["k"] == "switch":
+            o = t.get("op") or t.get("discr")
+            if isinstance(o, dict):
+                pl = o.get("c") or o.get("m")
+                if pl:
+                    yield bi, sp, pl
